@@ -1,6 +1,6 @@
 (* Props/C09.v -- property C09: responses mirror the request and are routed per RFC 3261 18.2.2 / RFC 3581 *)
 From Coq Require Import List NArith Bool.
-From EZK Require Import Lib.Bytes Lib.Num Gen.Tables Model.C09 Proofs.C09.
+From EZK Require Import Model.Forms8 Proofs.Forms8 Lib.Bytes Lib.Num Gen.Tables Model.C09 Proofs.C09.
 Import ListNotations.
 Open Scope N_scope.
 
@@ -71,3 +71,16 @@ Proof. exact content_length_once. Qed.
 (* decimal text of a number parses back (ports, lengths) *)
 Theorem C09_decimal_roundtrip : forall bound n, n <= bound -> parse_uint bound (print_dec n) = Some n.
 Proof. exact parse_print_dec. Qed.
+
+(* the copy of a response that answers a retransmitted request goes where the first one went (maddr, rport, source - whatever
+   decided), not to wherever the retransmission came from *)
+Theorem C09_resend_guard : resend_keeps_destination = true.
+Proof. reflexivity. Qed.
+
+Theorem C09_resend_same_destination : resend_keeps_destination = true ->
+  forall (A : Type) (stored retx_source : A), resend_dest stored retx_source = stored.
+Proof. exact resend_here. Qed.
+
+Theorem C09_resend_to_source_refuted : forall (A : Type) (stored retx_source : A),
+  stored <> retx_source -> resend_dest_form false stored retx_source <> stored.
+Proof. exact resend_to_source. Qed.
